@@ -234,3 +234,57 @@ M("C19-benign-not-operator", "C19", "src/interrogate/interrogate.cxx",
 M("C19-benign-exit-call", "C19", "src/interrogate/interrogate_module.cxx",
   "      nout << \"Unable to write to \" << output_code_filename << \"\\n\";\n      status = 1;", "      nout << \"Unable to write to \" << output_code_filename << \"\\n\";\n      exit(1);",
   benign=True)
+
+# ---------------------------------------------------------------- C04
+M("C04-enum-no-vis-gate", "C04", "src/interrogate/interrogateBuilder.cxx",
+  "  if (type->_vis > min_vis) {\n    // The type is not marked to be exported.\n    return;\n  }\n\n  get_type(type, true);\n}\n\n/**\n * Adds the indicated typedef type",
+  "  get_type(type, true);\n}\n\n/**\n * Adds the indicated typedef type",
+  expect="R04.1|scan_enum_type|get_type|vis")
+M("C04-vis-flipped", "C04", "src/interrogate/interrogateBuilder.cxx",
+  "  if (manifest->_vis > min_vis) {", "  if (manifest->_vis < min_vis) {",
+  expect="R04.1|scan_manifest|add_manifest|vis")
+M("C04-manifest-no-file-gate", "C04", "src/interrogate/interrogateBuilder.cxx",
+  "  if (manifest->_loc.file._source != CPPFile::S_local ||\n      in_ignorefile(manifest->_loc.file._filename_as_referenced)) {",
+  "  if (in_ignorefile(manifest->_loc.file._filename_as_referenced)) {",
+  expect="R04.1|scan_manifest|add_manifest|file")
+M("C04-struct-any-exported-init-true", "C04", "src/interrogate/interrogateBuilder.cxx",
+  "  if (type->_vis > min_vis) {\n    CPPScope *scope = type->_scope;\n\n    bool any_exported = false;", "  if (type->_vis > min_vis) {\n    CPPScope *scope = type->_scope;\n\n    bool any_exported = true;",
+  expect="R04.1|scan_struct_type|get_type|vis")
+M("C04-deleted-methods-exported", "C04", "src/interrogate/interrogateBuilder.cxx",
+  "  if (function->_storage_class & CPPInstance::SC_deleted) {\n    // It was explicitly marked as deleted.\n    return;\n  }\n", "",
+  expect="R04.2|define_method|get_function|not-deleted")
+M("C04-force-publish-always", "C04", "src/interrogate/interrogateBuilder.cxx",
+  "      (function->_storage_class & CPPInstance::SC_static) != 0 &&\n      function->_vis <= V_public) {\n    force_publish = true;",
+  "      (function->_storage_class & CPPInstance::SC_static) != 0) {\n    force_publish = true;",
+  expect="R04.2|define_method|force_publish#0")
+M("C04-protected-pointer-arm", "C04", "src/interrogate/typeManager.cxx",
+  "  case CPPDeclaration::ST_pointer:\n    return involves_protected(type->as_pointer_type()->_pointing_at);\n", "",
+  expect="R04.3|involves_protected|ST_pointer")
+M("C04-ignoreinvolved-params", "C04", "src/interrogate/interrogateBuilder.cxx",
+  "      for (pi = params.begin(); pi != params.end(); ++pi) {\n        if (in_ignoreinvolved((*pi)->_type)) {\n          return true;\n        }\n      }\n      return false;",
+  "      return false;",
+  expect="R04.3|in_ignoreinvolved|ST_function")
+M("C04-slocal-in-path-loop", "C04", "src/cppparser/cppPreprocessor.cxx",
+  "      source = _quote_include_kind[dir];", "      source = CPPFile::S_local;",
+  expect="R04.4|find_include|S_local-not-in-search-loop")
+M("C04-minvis-private-under-spam", "C04", "src/interrogate/interrogate.cxx",
+  "      generate_spam = true;", "      generate_spam = true;\n      min_vis = V_private;",
+  expect="R04.4|min_vis|write|main")
+M("C04-ignoremember-wrong-set", "C04", "src/interrogate/interrogateBuilder.cxx",
+  "    insert_param_list(_ignoremember, params);", "    insert_param_list(_ignorefile, params);",
+  expect="R04.5|command|ignoremember")
+M("C04-nested-no-vis", "C04", "src/interrogate/interrogateBuilder.cxx",
+  "      // An anonymous enum type.\n      if (type->_vis <= min_vis) {", "      // An anonymous enum type.\n      if (type->_vis <= V_private) {",
+  expect="R04.2|define_struct_type|nested-get_type")
+M("C04-benign-split-or", "C04", "src/interrogate/interrogateBuilder.cxx",
+  "  if (type->_file._source != CPPFile::S_local ||\n      in_ignorefile(type->_file._filename_as_referenced)) {\n    // The type is defined in some other package or in an ignorable file.\n    return;\n  }\n\n  if (type->_vis > min_vis) {\n    // The type is not marked to be exported.",
+  "  if (type->_file._source != CPPFile::S_local) {\n    return;\n  }\n  if (in_ignorefile(type->_file._filename_as_referenced)) {\n    // The type is defined in some other package or in an ignorable file.\n    return;\n  }\n\n  if (type->_vis > min_vis) {\n    // The type is not marked to be exported.",
+  benign=True)
+M("C04-benign-positive-form", "C04", "src/interrogate/interrogateBuilder.cxx",
+  "  if (manifest->_vis > min_vis) {\n    // The manifest is not marked for export.\n    return;\n  }\n\n  if (manifest->_has_parameters) {",
+  "  if (!(manifest->_vis <= min_vis)) {\n    // The manifest is not marked for export.\n    return;\n  }\n\n  if (manifest->_has_parameters) {",
+  benign=True)
+M("C04-benign-new-arm", "C04", "src/interrogate/typeManager.cxx",
+  "  case CPPDeclaration::ST_typedef:\n    return involves_protected(type->as_typedef_type()->_type);\n",
+  "  case CPPDeclaration::ST_typedef:\n    return involves_protected(type->as_typedef_type()->_type);\n\n  case CPPDeclaration::ST_array:\n    return involves_protected(type->as_array_type()->_element_type);\n",
+  benign=True)
